@@ -9,6 +9,8 @@
 //! Ops (see `lean/BarterModel/Driver/C08C.lean`):
 //!   configuration phase
 //!     `cfg <latency_ms> <fee> <cap> <n> <bal>*n <k> <base:quote>*k`   (`bal` is `x` or `total:free`)
+//!     `shape <m|b|k> <tok>*k`                directly after `cfg`: exchange id the mock stands for + kind / quoting /
+//!                                            settlement asset / contract size / spec of every instrument (see below)
 //!     `grp <instr>`                          starts an `InstrumentAccountSnapshot` of the initial state
 //!     `ord <instr> <strategy> <cid> <B|S> <M|L> <price> <qty> <tif> <state…>`   adds an order to it
 //!          state: `O <id> <time> <filled>` | `C <id> <time>` | `F` (open in flight) | `X` (fully
@@ -51,7 +53,21 @@ use barter_instrument::{
     Side, Underlying,
     asset::{QuoteAsset, name::AssetNameExchange},
     exchange::ExchangeId,
-    instrument::{Instrument, name::InstrumentNameExchange},
+    instrument::{
+        Instrument,
+        kind::{
+            InstrumentKind,
+            future::FutureContract,
+            option::{OptionContract, OptionExercise, OptionKind},
+            perpetual::PerpetualContract,
+        },
+        name::InstrumentNameExchange,
+        quote::InstrumentQuoteAsset,
+        spec::{
+            InstrumentSpec, InstrumentSpecNotional, InstrumentSpecPrice, InstrumentSpecQuantity,
+            OrderQuantityUnits,
+        },
+    },
 };
 use chrono::{DateTime, TimeZone, Utc};
 use fnv::FnvHashMap;
@@ -73,6 +89,58 @@ const EXCHANGE: ExchangeId = ExchangeId::Mock;
 /// `yield_now` rounds after every op: the longest wake-up chain (command -> worker -> exchange ->
 /// latency task -> timer driver -> latency task -> worker) needs five
 const SETTLE_ROUNDS: usize = 16;
+
+// ------------------------------------------------------------------ configuration shape (`shape` op)
+//
+// `shape <e> <tok>*k` directly after `cfg` (before any `grp`): `<e>` = the exchange id the mock stands
+// for (`m` Mock, `b` BinanceSpot, `k` Kraken: `MockExecutionConfig::mocked_exchange`, the snapshot's and
+// every instrument's exchange, the client's `mocked_exchange`, the exchange of every request key and of
+// the configured orders). One token per instrument `<K><Q><S><C>[+]`: K = s|p|f|o (spot / perpetual /
+// future / option), Q = q|b (`InstrumentQuoteAsset::UnderlyingQuote` / `UnderlyingBase`), S = one digit:
+// settlement asset of a derivative (any asset index, also one without balance; ignored for spot), C =
+// u|t|c contract size 1 / 10 / 0.01, `+` = an `InstrumentSpec` with large minima is present.
+// `MockExchange::new` is public and takes any `Instrument`; the exchange reads `underlying` only, so the
+// model checks the syntax and ignores the content. Without the op: Mock, spot, no spec (as before).
+thread_local! {
+    static CUR_EXCHANGE: std::cell::Cell<ExchangeId> = const { std::cell::Cell::new(EXCHANGE) };
+}
+
+fn exch() -> ExchangeId {
+    CUR_EXCHANGE.with(|c| c.get())
+}
+
+#[derive(Clone)]
+struct IShape {
+    kind: char,
+    quote_base: bool,
+    settle: usize,
+    csize: Decimal,
+    spec: bool,
+}
+
+fn parse_ishape(tok: &str) -> Option<IShape> {
+    let c: Vec<char> = tok.chars().collect();
+    if !(c.len() == 4 || (c.len() == 5 && c[4] == '+')) {
+        return None;
+    }
+    Some(IShape {
+        kind: "spfo".contains(c[0]).then_some(c[0])?,
+        quote_base: match c[1] {
+            'q' => false,
+            'b' => true,
+            _ => return None,
+        },
+        settle: c[2].to_digit(10)? as usize,
+        csize: match c[3] {
+            'u' => Decimal::ONE,
+            't' => Decimal::TEN,
+            'c' => Decimal::new(1, 2),
+            _ => return None,
+        },
+        spec: c.len() == 5,
+    })
+}
+
 
 fn time_ms(ms: i64) -> DateTime<Utc> {
     Utc.timestamp_millis_opt(ms).unwrap()
@@ -171,6 +239,8 @@ fn tif_s(t: TimeInForce) -> &'static str {
 struct Setup {
     config: MockExecutionConfig,
     cap: usize,
+    /// (base, quote) of the instruments, for `shape`
+    pairs: Vec<(usize, usize)>,
     instruments: FnvHashMap<InstrumentNameExchange, Instrument<ExchangeId, AssetNameExchange>>,
 }
 
@@ -195,28 +265,20 @@ fn parse_cfg(op: &[String]) -> Setup {
         .collect::<Vec<_>>();
     let k: usize = op[5 + n].parse().unwrap();
     assert_eq!(op.len(), 6 + n + k, "cfg arity");
-    let instruments = (0..k)
+    CUR_EXCHANGE.with(|c| c.set(EXCHANGE));
+    let pairs: Vec<(usize, usize)> = (0..k)
         .map(|i| {
             let (b, q) = op[6 + n + i].split_once(':').expect("base:quote");
-            let (b, q): (usize, usize) = (b.parse().unwrap(), q.parse().unwrap());
-            let name = instr_name(i);
-            (
-                name.clone(),
-                Instrument::spot(
-                    EXCHANGE,
-                    format!("mock-i{i}"),
-                    name,
-                    Underlying::new(asset_name(b), asset_name(q)),
-                    None,
-                ),
-            )
+            (b.parse().unwrap(), q.parse().unwrap())
         })
         .collect();
+    let instruments =
+        pairs.iter().enumerate().map(|(i, (b, q))| (instr_name(i), build_instrument(i, *b, *q, None))).collect();
     Setup {
         config: MockExecutionConfig {
-            mocked_exchange: EXCHANGE,
+            mocked_exchange: exch(),
             initial_state: UnindexedAccountSnapshot {
-                exchange: EXCHANGE,
+                exchange: exch(),
                 balances,
                 instruments: vec![],
             },
@@ -224,8 +286,84 @@ fn parse_cfg(op: &[String]) -> Setup {
             fees_percent,
         },
         cap,
+        pairs,
         instruments,
     }
+}
+
+/// `shape <e> <tok>*k`: `false` = ill-formed (`bad-op`, nothing changed)
+fn apply_shape(s: &mut Setup, op: &[String]) -> bool {
+    let e = match op.get(1).map(|s| s.as_str()) {
+        Some("m") => ExchangeId::Mock,
+        Some("b") => ExchangeId::BinanceSpot,
+        Some("k") => ExchangeId::Kraken,
+        _ => return false,
+    };
+    let Some(shapes) = op[2..].iter().map(|t| parse_ishape(t)).collect::<Option<Vec<_>>>() else { return false };
+    if shapes.len() != s.pairs.len() {
+        return false;
+    }
+    CUR_EXCHANGE.with(|c| c.set(e));
+    s.config.mocked_exchange = e;
+    s.config.initial_state.exchange = e;
+    s.instruments = s
+        .pairs
+        .iter()
+        .enumerate()
+        .map(|(i, (b, q))| (instr_name(i), build_instrument(i, *b, *q, Some(&shapes[i]))))
+        .collect();
+    true
+}
+
+fn build_instrument(
+    i: usize,
+    b: usize,
+    q: usize,
+    sh: Option<&IShape>,
+) -> Instrument<ExchangeId, AssetNameExchange> {
+    let name = instr_name(i);
+    let underlying = Underlying::new(asset_name(b), asset_name(q));
+    let Some(sh) = sh else {
+        return Instrument::spot(exch(), format!("mock-i{i}"), name, underlying, None);
+    };
+    let settlement_asset = asset_name(sh.settle);
+    let contract_size = sh.csize;
+    let expiry = time_ms(1_900_000_000_000);
+    let kind = match sh.kind {
+        's' => InstrumentKind::Spot,
+        'p' => InstrumentKind::Perpetual(PerpetualContract { contract_size, settlement_asset }),
+        'f' => InstrumentKind::Future(FutureContract { contract_size, settlement_asset, expiry }),
+        _ => InstrumentKind::Option(OptionContract {
+            contract_size,
+            settlement_asset,
+            kind: if i % 2 == 0 { OptionKind::Call } else { OptionKind::Put },
+            exercise: if i % 2 == 0 { OptionExercise::European } else { OptionExercise::American },
+            expiry,
+            strike: Decimal::new(100, 0),
+        }),
+    };
+    let spec = sh.spec.then(|| InstrumentSpec {
+        price: InstrumentSpecPrice { min: Decimal::new(1_000_000, 0), tick_size: Decimal::new(1000, 0) },
+        quantity: InstrumentSpecQuantity {
+            unit: match sh.kind {
+                's' => OrderQuantityUnits::Asset(asset_name(b)),
+                'p' => OrderQuantityUnits::Contract,
+                _ => OrderQuantityUnits::Quote,
+            },
+            min: Decimal::new(1_000_000, 0),
+            increment: Decimal::new(1000, 0),
+        },
+        notional: InstrumentSpecNotional { min: Decimal::new(1_000_000_000, 0) },
+    });
+    Instrument::new(
+        exch(),
+        format!("mock-i{i}"),
+        name,
+        underlying,
+        if sh.quote_base { InstrumentQuoteAsset::UnderlyingBase } else { InstrumentQuoteAsset::UnderlyingQuote },
+        kind,
+        spec,
+    )
 }
 
 fn parse_open_meta(op: &[String]) -> Open {
@@ -258,7 +396,7 @@ fn parse_ord(op: &[String]) -> UnindexedOrder {
     };
     Order {
         key: OrderKey {
-            exchange: EXCHANGE,
+            exchange: exch(),
             instrument: instr_name(op[1].parse().unwrap()),
             strategy: StrategyId::new(format!("s{}", op[2].parse::<usize>().unwrap())),
             cid: ClientOrderId::new(format!("c{}", op[3].parse::<usize>().unwrap())),
@@ -305,7 +443,7 @@ fn bal_lines(p: &str, mut bs: Vec<AssetBalance<AssetNameExchange>>, lines: &mut 
 
 /// common part of an order line: `instr strategy cid side price qty kind tif`
 fn fmt_order_head<S>(o: &Order<ExchangeId, InstrumentNameExchange, S>) -> String {
-    assert_eq!(o.key.exchange, EXCHANGE);
+    assert_eq!(o.key.exchange, exch());
     format!(
         "{} {} {} {} {} {} {} {}",
         instr_index(&o.key.instrument),
@@ -355,7 +493,10 @@ fn fmt_snapshot_order(o: &UnindexedOrder) -> ((u8, usize), String) {
 /// sorted (open before cancelled, then cid): the code's order there is hash-map iteration order
 /// under an unstable sort
 fn snapshot_lines(p: &str, s: UnindexedAccountSnapshot, lines: &mut Vec<String>) {
-    assert_eq!(s.exchange, EXCHANGE);
+    if s.exchange != exch() {
+        // never printed on the real code (was an assert while the exchange id was fixed to Mock)
+        lines.push(format!("{p}exch-mismatch snapshot {:?}", s.exchange));
+    }
     bal_lines(p, s.balances, lines);
     lines.push(format!("{p}instruments {}", s.instruments.len()));
     for InstrumentAccountSnapshot { instrument, orders } in &s.instruments {
@@ -369,7 +510,9 @@ fn snapshot_lines(p: &str, s: UnindexedAccountSnapshot, lines: &mut Vec<String>)
 }
 
 fn event_line(ev: &UnindexedAccountEvent) -> String {
-    assert_eq!(ev.exchange, EXCHANGE);
+    if ev.exchange != exch() {
+        return format!("ev X exch-mismatch {:?}", ev.exchange);
+    }
     match &ev.kind {
         AccountEventKind::BalanceSnapshot(b) => {
             let b = &b.0;
@@ -405,10 +548,10 @@ fn order_error_line(p: &str, e: &UnindexedOrderError) -> String {
                 fmt_dec(nums[1])
             )
         }
-        OrderError::Connectivity(ConnectivityError::ExchangeOffline(x)) => {
-            assert_eq!(*x, EXCHANGE);
-            format!("{p}err offline")
+        OrderError::Connectivity(ConnectivityError::ExchangeOffline(x)) if *x != exch() => {
+            format!("{p}err offline exch-mismatch {x:?}")
         }
+        OrderError::Connectivity(ConnectivityError::ExchangeOffline(_)) => format!("{p}err offline"),
         other => format!("{p}err other {other:?}").replace(' ', "_"),
     }
 }
@@ -420,9 +563,12 @@ fn client_error_lines<A: std::fmt::Debug, I: std::fmt::Debug>(
 ) {
     match e {
         ClientError::Connectivity(ConnectivityError::ExchangeOffline(x)) => {
-            assert_eq!(*x, EXCHANGE);
             lines.push(format!("{p}resp offline"));
-            lines.push(format!("{p}err offline"));
+            if *x != exch() {
+                lines.push(format!("{p}err offline exch-mismatch {x:?}"));
+            } else {
+                lines.push(format!("{p}err offline"));
+            }
         }
         other => lines.push(format!("{p}resp other {other:?}").replace(' ', "_")),
     }
@@ -490,11 +636,11 @@ where
     match kind {
         CallKind::Open { instrument, strategy, cid, state } => {
             let request = OrderRequestOpen {
-                key: OrderKey { exchange: EXCHANGE, instrument: &instrument, strategy, cid },
+                key: OrderKey { exchange: exch(), instrument: &instrument, strategy, cid },
                 state,
             };
             let r = client.open_order(request).await;
-            assert_eq!(r.key.exchange, EXCHANGE);
+            assert_eq!(r.key.exchange, exch());
             lines.push(format!(
                 "{p}resp {}",
                 match &r.state {
@@ -563,11 +709,11 @@ where
         },
         CallKind::Cancel { instrument, strategy, cid } => {
             let request = OrderRequestCancel {
-                key: OrderKey { exchange: EXCHANGE, instrument: &instrument, strategy, cid },
+                key: OrderKey { exchange: exch(), instrument: &instrument, strategy, cid },
                 state: RequestCancel { id: None },
             };
             let r = client.cancel_order(request).await;
-            assert_eq!(r.key.exchange, EXCHANGE);
+            assert_eq!(r.key.exchange, exch());
             lines.push(format!(
                 "{p}resp {}",
                 match &r.state {
@@ -678,6 +824,11 @@ fn run_case(case: &Case, lines: &mut Vec<String>) {
         lines.push("@".into());
         match op[0].as_str() {
             "cfg" if setup.is_none() && op.len() > 5 && op[3] != "0" => setup = Some(parse_cfg(op)),
+            "shape" if setup.as_ref().is_some_and(|s| s.config.initial_state.instruments.is_empty()) => {
+                if !apply_shape(setup.as_mut().unwrap(), op) {
+                    lines.push("bad-op".into());
+                }
+            }
             "grp" if setup.is_some() && op.len() == 2 => {
                 let s = setup.as_mut().unwrap();
                 s.config.initial_state.instruments.push(InstrumentAccountSnapshot {
@@ -697,7 +848,7 @@ fn run_case(case: &Case, lines: &mut Vec<String>) {
                 let name = instr_name(0);
                 let _ = exchange.cancel_order(OrderRequestCancel {
                     key: OrderKey {
-                        exchange: EXCHANGE,
+                        exchange: exch(),
                         instrument: name,
                         strategy: StrategyId::new("s0"),
                         cid: ClientOrderId::new("c0"),
@@ -729,7 +880,7 @@ fn run_case(case: &Case, lines: &mut Vec<String>) {
             move || time_ms(now.load(Ordering::SeqCst))
         };
         let client = <MockExecution<_> as ExecutionClient>::new(MockExecutionClientConfig {
-            mocked_exchange: EXCHANGE,
+            mocked_exchange: exch(),
             clock,
             request_tx,
             event_rx,
@@ -884,11 +1035,13 @@ struct World {
     clock: i64,
 }
 
-fn gen_cfg(rng: &mut Rng, out: &mut Out) -> World {
+/// `shape`: configuration-shape family (`cfg` cases, own PRNG stream): 8 % accounts without any balance
+/// and a `shape` op after the `cfg` line; with `shape = false` exactly the draws made before
+fn gen_cfg(rng: &mut Rng, out: &mut Out, shape: bool) -> World {
     let latency = *rng.pick(&[0u64, 1, 2, 7, 100, 101]);
     let fee = if rng.chance(4) { "-0.01" } else { *rng.pick(&["0", "0", "0.01", "0.001", "0.1", "0.25"]) };
     let cap = *rng.pick(&[1usize, 2, 2, 3, 4, 4, 5, 8, 16, 256]);
-    let n_assets = rng.range(1, 4) as usize;
+    let n_assets = if shape && rng.chance(8) { 0 } else { rng.range(1, 4) as usize };
     let mut bals: Vec<String> = (0..n_assets)
         .map(|_| match rng.below(6) {
             0 => "0".to_string(),
@@ -898,7 +1051,7 @@ fn gen_cfg(rng: &mut Rng, out: &mut Out) -> World {
             _ => d(rng.range(100, 1000), 0),
         })
         .collect();
-    let k = if rng.chance(5) { 0 } else { rng.range(1, 3) as usize };
+    let k = if n_assets == 0 || rng.chance(5) { 0 } else { rng.range(1, 3) as usize };
     let mut instruments: Vec<(usize, usize)> = (0..k)
         .map(|_| (rng.below(n_assets as u64) as usize, rng.below(n_assets as u64) as usize))
         .collect();
@@ -913,10 +1066,26 @@ fn gen_cfg(rng: &mut Rng, out: &mut Out) -> World {
         }
     }
     out.line(format!(
-        "cfg {latency} {fee} {cap} {n_assets} {} {k}{}",
-        bals.join(" "),
+        "cfg {latency} {fee} {cap} {n_assets}{} {k}{}",
+        bals.iter().map(|b| format!(" {b}")).collect::<String>(),
         instruments.iter().map(|(b, q)| format!(" {b}:{q}")).collect::<String>()
     ));
+    if shape {
+        let e = *rng.pick(&["m", "b", "b", "k", "k"]);
+        let toks: String = (0..k)
+            .map(|_| {
+                format!(
+                    " {}{}{}{}{}",
+                    *rng.pick(&["s", "p", "p", "f", "o"]),
+                    if rng.chance(25) { "b" } else { "q" },
+                    rng.below((n_assets as u64 + 2).min(10)),
+                    *rng.pick(&["u", "t", "t", "c"]),
+                    if rng.chance(40) { "+" } else { "" }
+                )
+            })
+            .collect();
+        out.line(format!("shape {e}{toks}"));
+    }
     // initial orders
     let n_groups = *rng.pick(&[0usize, 0, 1, 1, 2, 3]);
     let collide = rng.chance(15);
@@ -1147,13 +1316,13 @@ fn gen_burst(rng: &mut Rng, out: &mut Out) {
     out.line("poll 2");
 }
 
-fn gen_case(rng: &mut Rng, out: &mut Out, big: bool) {
-    if rng.chance(1) {
+fn gen_case(rng: &mut Rng, out: &mut Out, big: bool, shape: bool) {
+    if !shape && rng.chance(1) {
         gen_burst(rng, out);
         return;
     }
-    let mut w = gen_cfg(rng, out);
-    if rng.chance(1) {
+    let mut w = gen_cfg(rng, out, shape);
+    if !shape && rng.chance(1) {
         out.line("dcancel");
         return;
     }
@@ -1252,7 +1421,16 @@ fn generate(seed: u64, n_cases: usize, tier: &str) {
         id += 1;
         out.case(format!("r{id}"));
         let mut r = rng.fork();
-        gen_case(&mut r, &mut out, big);
+        gen_case(&mut r, &mut out, big, false);
+    }
+    // configuration-shape family (exchange id other than Mock, derivative instruments, in-kind quoting, an
+    // InstrumentSpec, accounts without balances): a fifth as many cases again, from its own PRNG stream
+    let mut crng = Rng::new(seed ^ 0x0C08_CCF6_5EED);
+    for _ in 0..n_cases.div_ceil(5) {
+        id += 1;
+        out.case(format!("cfg{id}"));
+        let mut r = crng.fork();
+        gen_case(&mut r, &mut out, big, true);
     }
     out.flush();
 }
